@@ -15,10 +15,17 @@ def _check():
     return check
 
 
+HARNESS_FAILURES = {}   # output directory -> what the harness said when it did not finish
+
+
 def harness(args, timeout=3000):
     env = dict(os.environ, RUST_BACKTRACE="0")
     p = subprocess.run([HBIN] + args, stdout=subprocess.PIPE, stderr=subprocess.STDOUT, timeout=timeout, env=env)
-    return p.returncode, p.stdout.decode("utf-8", "replace")
+    out = p.stdout.decode("utf-8", "replace")
+    if p.returncode != 0 and "--out" in args:
+        # the harness itself stopped (a panic of the implementation inside a query is not caught by the chain)
+        HARNESS_FAILURES[args[args.index("--out") + 1]] = "harness %s exited with code %d: %s" % (" ".join(args[:2]), p.returncode, out[-1500:])
+    return p.returncode, out
 
 
 def fresh_dir(name):
@@ -30,6 +37,8 @@ def fresh_dir(name):
 
 def eval_dir(d, prefix):
     ck = _check()
+    if d in HARNESS_FAILURES or not os.path.exists(os.path.join(d, "cases.jsonl")):
+        return {}, [HARNESS_FAILURES.get(d, "the harness produced no cases in %s" % d)], [], {}
     shards = sorted(glob.glob(os.path.join(d, prefix + "_*.v")))
     results, errors = ck.eval_shards(shards)
     cases = [l for l in open(os.path.join(d, "cases.jsonl")).read().splitlines() if l.strip()]
@@ -243,7 +252,8 @@ C01_CLAUSES = {1: "reported supply differs from the sum of listed balances", 2: 
 C02_CLAUSES = {1: "a balance decreased without its holder's own call or a valid allowance draw",
                2: "an allowance changed other than by its owner's increase/decrease or its spender's draw",
                3: "Send/SendFrom notification missing, duplicated or with wrong initiator/amount/payload",
-               4: "failed call emitted messages"}
+               4: "failed call emitted messages",
+               5: "a draw did not move exactly the amount (debit of the owner, credit of the recipient, nothing else)"}
 C13_CLAUSES = {1: "supply increased other than by a Mint from the current minter", 2: "supply above the cap",
                3: "minter role or cap changed other than by the current minter's UpdateMinter",
                4: "Mint/UpdateMinter by a non-minter succeeded",
@@ -396,7 +406,8 @@ C09_CLAUSES = {1: "reported total differs from the sum of the listed member weig
                3: "an at-height member answer for a height <= the call's block changed (history not frozen)",
                4: "an at-height member answer for a future height differs from the current weight",
                5: "an at-height total answer for a height <= the call's block changed", 6: "future-height total differs from the current total",
-               7: "raw storage read (TOTAL_KEY / member_key) differs from the smart query"}
+               7: "raw storage read (TOTAL_KEY / member_key) differs from the smart query",
+               8: "after an accepted UpdateMembers a removed address is still a member / an added one lacks its weight / a third one changed"}
 C10_CLAUSES = {1: "holdings below recorded stakes + unreleased claims", 2: "funded only by bonding, yet holdings differ from stakes + claims",
                3: "reported weight is not floor(stake / tokens_per_weight), or membership differs from stake >= min_bond",
                4: "a call other than Claim paid tokens out", 5: "a failed call changed stakes, claims or holdings",
@@ -500,7 +511,7 @@ CW3_KNOWN = {200: "D3", 201: "D3", 202: "D3", 203: "D3", 204: "D6"}
 def mk_cw3_run(eval_index, clauses, proj):
     def run(prop, tier, seed, replay, coverage):
         return run_trace_family("cw3", "cw3", eval_index, clauses, proj, prop, tier, seed, replay, coverage,
-                                quick_n=192, thorough_n=2400, steps=30, known_codes=CW3_KNOWN)
+                                quick_n=320, thorough_n=2400, steps=30, known_codes=CW3_KNOWN)
     return run
 
 
@@ -578,6 +589,7 @@ C12_CLAUSES = {1: "accepted transfer did not emit exactly one packet with the es
                11: "a success acknowledgement of our packet changed balances", 12: "failed send not taken off the channel balance by exactly its amount",
                13: "refund of a failed send not paid to the original sender", 14: "tokens sent outside the protocol changed channel balances",
                15: "migrated from an old layout, yet a channel's outstanding balance differs from what is actually escrowed",
+               16: "a migration of an up-to-date contract rewrote channel balances",
                20: "accounting identity outstanding = sent - failed - redeemed broken"}
 C18_CLAUSES = {1: "an allowed token was removed or its gas limit lowered", 2: "allow list / governance / defaults changed other than by the governance address's own call",
                3: "cw20 transfer accepted although the token is not allowed and no default gas limit is set",
@@ -588,7 +600,7 @@ C18_CLAUSES = {1: "an allowed token was removed or its gas limit lowered", 2: "a
 def mk_ics20_run(eval_index, clauses, proj):
     def run(prop, tier, seed, replay, coverage):
         return run_trace_family("ics20", "ics20", eval_index, clauses, proj, prop, tier, seed, replay, coverage,
-                                quick_n=256, thorough_n=3200, steps=30)
+                                quick_n=320, thorough_n=3200, steps=30)
     return run
 
 
